@@ -66,10 +66,10 @@ def effects(ctx, name):
                 raise AnchorError(f"{key}: branches on {T.show(t)}, which is neither the local override, the loaded global flag nor the saved flag")
         writes, atomics, reads = [], [], []
         for tr in lf.trace:
-            if tr[0] in ("cell_set", "cell_take", "cell_get"):
+            if tr[0] in ("cell_set", "cell_take", "cell_get", "cell_replace"):
                 if not is_tls_cell(tr[1]):
                     raise AnchorError(f"{key}: Cell operation on something other than LOCAL_ENABLED: {tr[1]}")
-                if tr[0] == "cell_set":
+                if tr[0] in ("cell_set", "cell_replace"):
                     writes.append(tr[2])
                 elif tr[0] == "cell_take":
                     writes.append(("default",))
@@ -157,15 +157,13 @@ def r3(ctx):
                 ops = [(op, v[1] if v and v[0] == "int" else None) for op, v in r["atomics"]]
                 ctx.ob(f"{name}[{r['pre']}] global", ops == [atomic], f"{name} performs {ops} on the global flag, expected exactly [{atomic}]", site=site,
                        sample={"atomic": ops})
-                # order: own override first, then the global flag
-                kinds = [t[0] for t in r["trace"] if t[0] in ("cell_set", "atomic")]
-                ctx.ob(f"{name}[{r['pre']}] order", kinds in (["cell_set", "atomic"], ["atomic"]), f"{name}: effects occur in order {kinds}; the own override is settled before the global flag", site=site)
         if len(table) == 3:
             ctx.floor(f"{name}: override cases", len(rows), 3)
     rows, site = effects(ctx, "local_take")
     for r in rows:
         ret = r["ret"]
-        ok = r["writes"] == [("default",)] and not r["atomics"] and ret[0] == "adt" and ret[3][0][0] == "cell_value"
+        # Cell::take, or Cell::replace(default value): both hand out the old override and leave LocalFlag::default() (checked Global in R1)
+        ok = r["writes"] in ([("default",)], [flag("Global")]) and not r["atomics"] and ret[0] == "adt" and ret[3][0][0] == "cell_value"
         ctx.ob("local_take", ok, f"local_take: writes {r['writes']}, atomics {r['atomics']}, returns {T.show(ret)}; expected Cell::take of the override", site=site,
                sample={"returns": T.show(ret)})
     rows, site = effects(ctx, "restore")
